@@ -386,10 +386,88 @@ func (c *c19ctx) injectBase64() {
 	c.say(what + " -> exit != 0 with a message")
 }
 
+// injectTOML: several TOML inputs, one of them with a malformed line somewhere (before the first key, among the root keys,
+// right after a table header, inside a table, inside an array table, at the very end): the run ends with an error wherever
+// the line sits, and every well-formed file before it has contributed its result.
+func (c *c19ctx) injectTOML() {
+	c.group = "B-inject"
+	c.tag("kind:syntax", "input:toml")
+	nf := 1 + c.r.IntN(3)
+	j := c.r.IntN(nf)
+	bads := []string{`port = "808`, `x = `, `= 1`, `x 1`, `[tab`, `x = [1, 2`, `x = 1 y = 2`, `x = 01`, `a.b. = 1`, `x = "a\qb"`, `x = 'a`, `x == 1`, `x = {a = 1`}
+	var names, firsts []string
+	for fi := 0; fi < nf; fi++ {
+		v := fmt.Sprintf("v%d", c.r.IntN(1000))
+		lines := []string{fmt.Sprintf("name = %q", v)}
+		for k := c.r.IntN(3); k > 0; k-- {
+			lines = append(lines, fmt.Sprintf("n%d = %d", k, c.r.IntN(50)))
+		}
+		rootEnd := len(lines)
+		lines = append(lines, "[server]", `host = "h"`, fmt.Sprintf("p = %d", c.r.IntN(9000)))
+		if c.r.IntN(2) == 0 {
+			lines = append(lines, "[[arr]]", "k = 1", "[[arr]]", "k = 2")
+		}
+		if fi == j {
+			var at int
+			switch pos := c.r.IntN(8); pos {
+			case 0:
+				at = 0
+			case 1, 6, 7:
+				at = 1 + c.r.IntN(rootEnd) // among / right after the root keys, before the first header
+			case 2:
+				at = rootEnd + 1 // right after a table header
+			case 3:
+				at = rootEnd + 2 // inside a table
+			case 4:
+				at = len(lines) - 1
+			default:
+				at = len(lines)
+			}
+			c.tag(fmt.Sprintf("toml_bad_at:%d", min(at, 4)))
+			bad := bads[c.r.IntN(len(bads))]
+			lines = append(lines[:at], append([]string{bad}, lines[at:]...)...)
+			c.note("broken_document", strings.Join(lines, "\n"))
+		} else {
+			firsts = append(firsts, v)
+		}
+		name := fmt.Sprintf("f%d.toml", fi)
+		c.write(name, strings.Join(lines, "\n")+"\n")
+		names = append(names, name)
+	}
+	c.tag(fmt.Sprintf("at:f%d", j))
+	what := fmt.Sprintf("TOML file %d of %d has a malformed line", j, nf)
+	mode := []string{"eval", "eval-all"}[c.r.IntN(2)]
+	args := []string{mode, "-o=json", "-I0", ".name"}
+	if c.r.IntN(3) == 0 {
+		args = []string{mode, "-p=toml", "-o=json", "-I0", ".name"}
+	}
+	x := c.yq(nil, append(args, names...)...)
+	if x.TimedOut || !c.failedProperly(x, what+" ("+mode+")") {
+		return
+	}
+	got, err := ref.ParseJSONStream(string(x.Stdout))
+	if err != nil || len(got) > j {
+		c.violate("%s: stdout of the failed run holds %d results (err=%v), only %d files precede the failure: %q", what, len(got), err, j, clipStr(string(x.Stdout), 300))
+		return
+	}
+	for i := range got {
+		if got[i].K != ref.Str || got[i].S != firsts[i] {
+			c.violate("%s: result #%d printed before the failure is %s, expected %q", what, i, got[i].JSON(), firsts[i])
+			return
+		}
+	}
+	c.res.Nontrivial = true
+	c.say(what + " -> exit != 0 with a message")
+}
+
 func (c *c19ctx) injectB1(n int) {
 	c.group = "B-inject"
 	kinds := []string{"syntax", "missing", "dir", "type", "encode", "xml", "type", "syntax", "base64", "xml"}
 	kind := kinds[n%len(kinds)]
+	if c.r.IntN(5) == 0 {
+		c.injectTOML()
+		return
+	}
 	if kind == "xml" {
 		c.injectXML()
 		return
